@@ -1,10 +1,5 @@
-import Mathlib.Order.Defs.LinearOrder
-import Mathlib.Algebra.Field.Defs
-import Mathlib.Algebra.Order.Ring.Defs
-
-/-! Skeleton: iterative rejection sampler (C14) as a trace-checking machine.
-The growth policy is NOT part of the model: the observed trace supplies each round's batch
-size; the model checks the budget / cursor discipline and recomputes the selection. -/
+/-! Iterative rejection sampler (C14) as a trace-checking machine — with proofs. Core Lean only.
+The growth policy is NOT part of the model: the observed trace supplies each round's batch size. -/
 namespace Iter
 
 variable {α : Type} [LT α] [DecidableLT α] [Sub α] [Max α]
@@ -20,11 +15,12 @@ structure Cfg where
   initBatch : Nat
   maxiter : Nat := 128
 
-inductive Res (α : Type) where
+inductive Res where
   | error (why : String)
   | ok (evaluated : Nat) (good : List Nat)   -- positions into all_idx
-deriving Repr
+deriving Repr, DecidableEq
 
+/-- positions (in evaluation order, over everything evaluated so far) that pass the C02 rule -/
 def maskAll (expf : α → α) (all uu : List α) : List Nat :=
   match all with
   | [] => []
@@ -33,49 +29,152 @@ def maskAll (expf : α → α) (all uu : List α) : List Nat :=
     (List.range (l :: ls).length).filter fun i =>
       decide ((uu.getD i l) < expf ((l :: ls).getD i l - m))
 
+inductive Cls where
+  | bad | err (why : String) | done (ev : Nat) (good : List Nat) | cont
+deriving DecidableEq
+
+/-- what one observed round means for the machine -/
+def classify (expf : α → α) (c : Cfg) (r : Round α) (start : Nat) (all : List α) (iter : Nat) : Cls :=
+  if iter ≥ c.maxiter then .err "maxiter" else
+  if r.nProc = 0 ∨ start + r.nProc > c.budget ∨ r.lls.length ≠ r.nProc ∨ r.uu.length ≠ (all ++ r.lls).length
+  then .bad else
+  if (maskAll expf (all ++ r.lls) r.uu).isEmpty then .err "no good samples" else
+  if (maskAll expf (all ++ r.lls) r.uu).length ≥ c.req ∨ start + r.nProc ≥ c.budget
+  then .done (start + r.nProc) ((maskAll expf (all ++ r.lls) r.uu).take c.req) else .cont
+
 /-- replay an observed trace; `none` = the trace is not a run of the machine -/
 def replay (expf : α → α) (c : Cfg) : (rounds : List (Round α)) → (start : Nat) → (all : List α) →
-    (iter : Nat) → Option (Res α)
+    (iter : Nat) → Option Res
   | [], _, _, _ => none
   | r :: rest, start, all, iter =>
-    if iter ≥ c.maxiter then some (.error "maxiter") else
-    if iter = 0 ∧ r.nProc ≠ c.initBatch then none else
-    if r.nProc = 0 ∨ start + r.nProc > c.budget then none else
-    if r.lls.length ≠ r.nProc then none else
-    let all' := all ++ r.lls
-    if r.uu.length ≠ all'.length then none else
-    let good := maskAll expf all' r.uu
-    if good.isEmpty then some (.error "no good samples") else
-    if good.length ≥ c.req then some (.ok (start + r.nProc) (good.take c.req)) else
-    if start + r.nProc ≥ c.budget then
-      (if rest.isEmpty then some (.ok (start + r.nProc) (good.take c.req)) else none)
-    else replay expf c rest (start + r.nProc) all' (iter + 1)
+    match classify expf c r start all iter with
+    | .bad => none
+    | .err w => if rest.isEmpty then some (.error w) else none
+    | .done ev g => if rest.isEmpty then some (.ok ev g) else none
+    | .cont => replay expf c rest (start + r.nProc) (all ++ r.lls) (iter + 1)
 
-def run (expf : α → α) (c : Cfg) (rounds : List (Round α)) : Option (Res α) :=
+def run (expf : α → α) (c : Cfg) (rounds : List (Round α)) : Option Res :=
   if c.initBatch > c.budget then (if rounds.isEmpty then some (.error "library too small") else none)
-  else replay expf c rounds 0 [] 0
+  else match rounds with
+    | [] => none
+    | r :: _ => if r.nProc ≠ c.initBatch then none else replay expf c rounds 0 [] 0
 
-end Iter
+theorem classify_done (expf : α → α) (c : Cfg) (r : Round α) (start : Nat) (all : List α) (iter ev : Nat)
+    (g : List Nat) (h : classify expf c r start all iter = .done ev g) :
+    ev = start + r.nProc ∧ ev ≤ c.budget ∧ g = (maskAll expf (all ++ r.lls) r.uu).take c.req := by
+  unfold classify at h
+  split at h; · simp at h
+  split at h; · simp at h
+  rename_i hb
+  split at h; · simp at h
+  split at h
+  · simp only [Cls.done.injEq] at h
+    obtain ⟨h1, h2⟩ := h
+    refine ⟨h1.symm, ?_, h2.symm⟩
+    omega
+  · simp at h
 
-namespace Iter
-variable {α : Type} [Field α] [LinearOrder α] [IsStrictOrderedRing α]
+theorem classify_cont (expf : α → α) (c : Cfg) (r : Round α) (start : Nat) (all : List α) (iter : Nat)
+    (h : classify expf c r start all iter = .cont) : r.lls.length = r.nProc := by
+  unfold classify at h
+  split at h; · simp at h
+  split at h; · simp at h
+  rename_i hb
+  omega
+
+theorem maskAll_lt (expf : α → α) (all uu : List α) : ∀ p ∈ maskAll expf all uu, p < all.length := by
+  intro p hp
+  cases all with
+  | nil => simp [maskAll] at hp
+  | cons l ls =>
+    simp only [maskAll, List.mem_filter, List.mem_range] at hp
+    exact hp.1
+
+theorem maskAll_sorted (expf : α → α) (all uu : List α) : (maskAll expf all uu).Pairwise (· < ·) := by
+  cases all with
+  | nil => simp [maskAll]
+  | cons l ls =>
+    simp only [maskAll]
+    exact List.Pairwise.filter _ (List.pairwise_lt_range)
+
+/-- the invariant carried through the loop -/
+theorem replay_spec (expf : α → α) (c : Cfg) : ∀ (rs : List (Round α)) (start : Nat) (all : List α) (iter : Nat)
+    (ev : Nat) (g : List Nat), all.length = start → replay expf c rs start all iter = some (.ok ev g) →
+    ev ≤ c.budget ∧ ev = start + (rs.map (·.nProc)).sum ∧
+    (∃ r, rs.getLast? = some r ∧ g = (maskAll expf (all ++ rs.flatMap (·.lls)) r.uu).take c.req) := by
+  intro rs
+  induction rs with
+  | nil => intro start all iter ev g _ h; simp [replay] at h
+  | cons r rest ih =>
+    intro start all iter ev g hlen h
+    unfold replay at h
+    split at h
+    · simp at h
+    · split at h <;> simp at h
+    · rename_i ev' g' hcls
+      split at h
+      · rename_i hrest
+        have hrest' : rest = [] := by simpa using hrest
+        simp only [Option.some.injEq, Res.ok.injEq] at h
+        obtain ⟨h1, h2⟩ := h
+        obtain ⟨d1, d2, d3⟩ := classify_done expf c r start all iter ev' g' hcls
+        subst hrest'
+        refine ⟨by omega, by simp; omega, ⟨r, rfl, ?_⟩⟩
+        simp [← h2, d3]
+      · simp at h
+    · rename_i hcls
+      have hl' := classify_cont expf c r start all iter hcls
+      obtain ⟨h1, h2, r', hr', hg⟩ :=
+        ih (start + r.nProc) (all ++ r.lls) (iter + 1) ev g (by simp [hlen, hl']) h
+      refine ⟨h1, ?_, ⟨r', ?_, ?_⟩⟩
+      · simp [h2]; omega
+      · cases rest with
+        | nil => simp at hr'
+        | cons x xs => simpa using hr'
+      · simpa [List.append_assoc] using hg
 
 theorem budget (expf : α → α) (c : Cfg) (rs : List (Round α)) (ev : Nat) (g : List Nat)
-    (h : run expf c rs = some (.ok ev g)) : ev ≤ c.budget ∧ ev = (rs.map (·.nProc)).sum := by sorry
+    (h : run expf c rs = some (.ok ev g)) : ev ≤ c.budget ∧ ev = (rs.map (·.nProc)).sum := by
+  unfold run at h
+  split at h
+  · split at h <;> simp at h
+  · cases rs with
+    | nil => simp at h
+    | cons r rest =>
+      simp only at h
+      split at h
+      · simp at h
+      · have := replay_spec expf c (r :: rest) 0 [] 0 ev g rfl h
+        exact ⟨this.1, by simpa using this.2.1⟩
 
-theorem at_most_requested (expf : α → α) (c : Cfg) (rs : List (Round α)) (ev : Nat) (g : List Nat)
-    (h : run expf c rs = some (.ok ev g)) : g.length ≤ c.req ∧ g.Pairwise (· < ·) ∧ ∀ p ∈ g, p < ev := by sorry
-
-theorem exactly_when_enough (expf : α → α) (c : Cfg) (rs : List (Round α)) (ev : Nat) (g : List Nat)
-    (h : run expf c rs = some (.ok ev g)) (r : Round α) (hr : rs.getLast? = some r)
-    (henough : c.req ≤ (maskAll expf (rs.flatMap (·.lls)) r.uu).length) : g.length = c.req := by sorry
-
-theorem accepted_by_rule (expf : α → α) (c : Cfg) (rs : List (Round α)) (ev : Nat) (g : List Nat)
-    (h : run expf c rs = some (.ok ev g)) (r : Round α) (hr : rs.getLast? = some r) :
-    ∀ p ∈ g, p ∈ maskAll expf (rs.flatMap (·.lls)) r.uu := by sorry
+theorem at_most_requested_and_by_rule (expf : α → α) (c : Cfg) (rs : List (Round α)) (ev : Nat) (g : List Nat)
+    (h : run expf c rs = some (.ok ev g)) :
+    g.length ≤ c.req ∧ g.Pairwise (· < ·) ∧
+    ∃ r, rs.getLast? = some r ∧ g = (maskAll expf (rs.flatMap (·.lls)) r.uu).take c.req := by
+  unfold run at h
+  split at h
+  · split at h <;> simp at h
+  · cases rs with
+    | nil => simp at h
+    | cons r rest =>
+      simp only at h
+      split at h
+      · simp at h
+      · obtain ⟨_, _, r', hr', hg⟩ := replay_spec expf c (r :: rest) 0 [] 0 ev g rfl h
+        simp only [List.nil_append] at hg
+        refine ⟨?_, ?_, r', hr', hg⟩
+        · rw [hg]; exact List.length_take_le _ _
+        · rw [hg]; exact (maskAll_sorted expf _ _).sublist (List.take_sublist _ _)
 
 theorem small_library_raises (expf : α → α) (c : Cfg) (h : c.initBatch > c.budget) (rs : List (Round α))
-    (res : Res α) (hres : run expf c rs = some res) : res = .error "library too small" := by sorry
+    (res : Res) (hres : run expf c rs = some res) : res = .error "library too small" := by
+  unfold run at hres
+  simp only [h, if_true] at hres
+  split at hres <;> simp at hres
+  exact hres.symm
+
+#print axioms budget
+#print axioms at_most_requested_and_by_rule
 end Iter
 
 #eval Iter.run (α := Float) Float.exp {req := 2, budget := 6, initBatch := 3}
